@@ -86,7 +86,8 @@ def predicate_contracts():
     return {
         'eq_zero': C(pre=['valid(*self)'], post=[('C15.eq_zero.value', 'r == (val_cmp(*self, %s) == 0)' % ZERO)]),
         'eq_one': C(pre=['valid(*self)'], post=[('C15.eq_one.value', 'r == (val_cmp(*self, %s) == 0)' % ONE)],
-                    entry='lemma_pow10_values();'),
+                    entry='lemma_pow10_values(); assert(1 * pow10(self.n_frac_digits as nat) == pow10(self.n_frac_digits as nat)); '
+                          'assert(max_u8(self.n_frac_digits, 0) == self.n_frac_digits);'),
         'is_negative': C(pre=['valid(*self)'], post=[('C15.is_negative.value', 'r == (val_cmp(*self, %s) < 0)' % ZERO)]),
         'is_positive': C(pre=['valid(*self)'], post=[('C15.is_positive.value', 'r == (val_cmp(*self, %s) > 0)' % ZERO)]),
     }
@@ -131,4 +132,144 @@ def build():
     u.impl('fpdec', 'unops::impl Neg for &Decimal', {'neg': neg_contract('(*self)')})
     u.inherent('fpdec', 'unops::impl Decimal', unops_contracts())
     u.inherent('fpdec', 'binops::cmp::impl Decimal', predicate_contracts())
+    return u
+
+
+# ---------------------------------------------------------------------------------------------
+# feature num-traits: Zero / One / Num / Signed for Decimal  (expansion with --features num-traits)
+# ---------------------------------------------------------------------------------------------
+# The traits live in the external crate num-traits (0.2.19), which is not part of the single-file
+# Verus program.  The impls of /repo are kept verbatim; what is added is a *stand-in declaration* of
+# each trait (required methods only, signatures as in num-traits 0.2.19 src/identities.rs, src/lib.rs,
+# src/sign.rs; supertrait bounds and provided methods omitted) carrying the ghost pre/post members
+# that vgen generates for crate traits.  If an impl in /repo did not match these signatures rustc
+# would reject the generated file (frontend error => undecided, never a pass).
+import vgen
+import rsx
+
+NUM_TRAITS = {
+    'Zero': ('', ['fn zero() -> Self', 'fn is_zero(&self) -> bool']),
+    'One': ('', ['fn one() -> Self', 'fn is_one(&self) -> bool']),
+    'Num': ('    type FromStrRadixErr;\n',
+            ['fn from_str_radix(str: &str, radix: u32) -> Result<Self, Self::FromStrRadixErr>']),
+    'Signed': ('', ['fn abs(&self) -> Self', 'fn abs_sub(&self, other: &Self) -> Self', 'fn signum(&self) -> Self',
+                    'fn is_positive(&self) -> bool', 'fn is_negative(&self) -> bool']),
+}
+
+
+def standin_trait(u, name):
+    assoc, sigs = NUM_TRAITS[name]
+    out = '// stand-in for num_traits::%s (num-traits 0.2.19), required methods only\npub trait %s: Sized {\n%s' % (name, name, assoc)
+    for sig in sigs:
+        sig = vgen.rewrite_body(sig)
+        decl, req, ens, plist, ret = vgen.ghost_decls(sig)
+        out += decl
+        out += '    %s\n        requires %s,\n        ensures %s;\n' % (
+            sig.replace('-> %s' % ret, '-> (r: %s)' % ret), req, ', '.join(ens))
+    out += '}\n'
+    u.raw(out, 'standin-' + name)
+    u.crate_traits.add(name)
+
+
+NT_SPEC = '''
+/// the result of `<Decimal as FromStr>::from_str` is a function of the characters of its argument
+/// (the function itself is specified and verified in C06; here only "same call, same result" is used)
+pub uninterp spec fn from_str_result(s: Seq<char>) -> Result<Decimal, ParseDecimalError>;
+'''
+
+ZERO_V = 'Decimal { coeff: 0, n_frac_digits: 0 }'
+ONE_V = 'Decimal { coeff: 1, n_frac_digits: 0 }'
+
+
+def num_traits_contracts():
+    V = 'valid(*self)'
+    return {
+        'Zero': {
+            'zero': C(post=[('C15.num.zero', 'r == %s' % ZERO_V)]),
+            'is_zero': C(pre=[V], post=[('C15.num.is_zero', 'r == (val_cmp(*self, %s) == 0)' % ZERO_V)]),
+        },
+        'One': {
+            'one': C(post=[('C15.num.one', 'r == %s' % ONE_V)]),
+            'is_one': C(pre=[V], post=[('C15.num.is_one', 'r == (val_cmp(*self, %s) == 0)' % ONE_V)]),
+        },
+        'Num': {
+            'from_str_radix': C(post=[
+                ('C15.num.from_str_radix.radix10', 'radix == 10 ==> r == from_str_result(str@)'),
+                ('C15.num.from_str_radix.other_radix',
+                 'radix != 10 ==> r == Err::<Decimal, ParseDecimalError>(ParseDecimalError::Invalid)')]),
+        },
+        'Signed': {
+            'abs': C(pre=[V], post=[('C15.num.abs.exact', 'r.coeff == abs_int(self.coeff as int)'),
+                                    ('C15.num.abs.scale', 'r.n_frac_digits == self.n_frac_digits')]),
+            # max(x - y, 0); the difference panics exactly when it is not representable (C01)
+            # (`self - other` on two `&Decimal` is emitted as `Sub::sub(self, other)`, vgen R62)
+            'abs_sub': C(pre=[V, 'valid(*other)'],
+                         ok=[('C15.num.abs_sub.panics_iff_unrepresentable', 'val_cmp(*self, *other) > 0 ==> ok_sub(*self, *other)')],
+                         post=[('C15.num.abs_sub.value',
+                                'r == (if val_cmp(*self, *other) <= 0 { %s } else { spec_sub(*self, *other) })' % ZERO_V),
+                               ('C15.num.abs_sub.wf', 'wf(r)')]),
+            'signum': C(pre=[V], post=[('C15.num.signum', 'r.n_frac_digits == 0 && r.coeff == sgn(self.coeff as int)'),
+                                       ('C15.num.signum.by_value', 'r.coeff == val_cmp(*self, %s)' % ZERO_V)],
+                        entry='assert(max_u8(self.n_frac_digits, 0) == self.n_frac_digits); '
+                              'assert(0 * pow10(self.n_frac_digits as nat) == 0);'),
+            'is_positive': C(pre=[V], post=[('C15.num.is_positive', 'r == (val_cmp(*self, %s) > 0)' % ZERO_V)]),
+            'is_negative': C(pre=[V], post=[('C15.num.is_negative', 'r == (val_cmp(*self, %s) < 0)' % ZERO_V)]),
+        },
+    }
+
+
+def _stubbed(cs):
+    for c in cs.values():
+        if c is not None:
+            c.stub = True
+            c.entry = None
+    return cs
+
+
+def build_num_traits():
+    import conv_int
+    import add_sub
+    import runner
+    u = Unit('num_traits', specs=['base.rs', 'rounding.rs', 'decimal.rs', 'std_assumed.rs', 'std_conv.rs', 'unops.rs', 'binops.rs'],
+             uses=['use core::str::FromStr;'])
+    core_kernel.add_core_items(u)
+    u.item('core', 'parser::enum ParseDecimalError')
+    u.item('fpdec', 'struct Decimal')
+    m = {'const ZERO': None, 'const ONE': None}
+    m['coefficient'] = C(post=[('coefficient.value', 'r == self.coeff')], stub=True)
+    u.inherent('fpdec', 'impl Decimal', m)
+    u.raw(NT_SPEC, 'num-traits-spec')
+    # callees: contracts proved in units unops / conv_int / add_sub (C01) / parser (C06), stubs here
+    abs_c = {'abs': unops_contracts()['abs']}
+    u.inherent('fpdec', 'unops::impl Decimal', _stubbed(abs_c))
+    u.inherent('fpdec', 'binops::cmp::impl Decimal', _stubbed(predicate_contracts()))
+    u.impl('fpdec', 'from_int::impl From<i128> for Decimal', _stubbed({'from': conv_int.from_int_contract('i128')}))
+    u.impl('fpdec', 'binops::add_sub::impl Add<Self> for Decimal',
+           _stubbed({'add': add_sub.op_contract('ok_add', 'spec_add')('self', 'rhs', 'dec', 'dec', None)}))
+    subc = add_sub.op_contract('ok_sub', 'spec_sub')
+    u.impl('fpdec', 'binops::add_sub::impl Sub<Self> for Decimal', _stubbed({'sub': subc('self', 'rhs', 'dec', 'dec', None)}))
+    u.impl('fpdec', 'binops::add_sub::impl Sub<&Decimal> for &Decimal where Decimal: Sub<Decimal>',
+           _stubbed({'sub': subc('(*self)', '(*rhs)', 'dec', 'dec', None)}))
+    # comparison by value on the domain (C08); nothing is known outside it
+    BOTH = 'valid(*self) && valid(*other)'
+    u.impl('fpdec', 'binops::cmp::impl PartialEq<Decimal> for Decimal', {'eq': C(
+        value='if %s { val_cmp(*self, *other) == 0 } else { arbitrary() }' % BOTH, stub=True)})
+    u.impl('fpdec', 'binops::cmp::impl PartialOrd<Decimal> for Decimal', {'partial_cmp': C(
+        value='if %s { Some(ord_of(val_cmp(*self, *other))) } else { arbitrary() }' % BOTH, stub=True)})
+    u.impl('fpdec', 'from_str::impl FromStr for Decimal',
+           {'from_str': C(post=[('from_str.function_of_chars', 'r == from_str_result(lit@)')], stub=True)})
+    cs = num_traits_contracts()
+    idx = runner.load_sources(('fpdec',), ('num-traits',))['fpdec']
+    n = 0
+    for k, it in idx.items():
+        if isinstance(it, list) or it.kind != 'impl' or it.path != 'num_traits':
+            continue
+        t = vgen.parse_impl_header(it.header)['trait']
+        if t not in cs:
+            raise rsx.AnchorLost('num_traits: unexpected impl %s' % k)
+        standin_trait(u, t)
+        u.impl('fpdec', k, cs[t])
+        n += 1
+    if n != 4:
+        raise rsx.AnchorLost('num_traits: expected 4 impls (Zero, One, Num, Signed), found %d' % n)
     return u
